@@ -739,4 +739,21 @@ theorem strstrOuter_spec (h n : Buf) (q : Nat) (h0n : 0 ∈ n.drop q) (hne : (n.
           rw [hf, hP]
 
 
+/-! ### cutting an allocation after the terminator -/
+
+theorem takeWhile_take_of_mem : ∀ (l : List Nat) (k : Nat), 0 ∈ l → (l.takeWhile (· ≠ 0)).length + 1 ≤ k →
+    (l.take k).takeWhile (· ≠ 0) = l.takeWhile (· ≠ 0) ∧ 0 ∈ l.take k
+  | [], _, h, _ => by simp at h
+  | x :: l, k, h, hk => by
+    cases k with
+    | zero => omega
+    | succ k =>
+      by_cases hx : x = 0
+      · simp [List.takeWhile_cons, hx]
+      · have hk' : (l.takeWhile (· ≠ 0)).length + 1 ≤ k := by simpa [List.takeWhile_cons, hx] using hk
+        obtain ⟨h1, h2⟩ := takeWhile_take_of_mem l k (mem_tail_of_ne h hx) hk'
+        refine ⟨?_, by simp [h2]⟩
+        rw [List.take_succ_cons, List.takeWhile_cons, List.takeWhile_cons, h1]
+
+
 end Tetl.C18
